@@ -117,6 +117,7 @@ class Report:
         refuted = [o for o in self.obs if o['verdict'] == 'refuted']
         unknown = [o for o in self.obs if o['verdict'] in ('unknown', 'unsupported')]
         known_hits = {}
+        known_bounded = {}
         violations = []
         # group refuted obligations by key (one report per function/clause/config)
         seen = set()
@@ -144,6 +145,7 @@ class Report:
                         break
                 if hit:
                     known_hits.setdefault(hit['id'], [hit, 0])[1] += 1
+                    known_bounded[hit['id']] = known_bounded.get(hit['id'], 0) + 1
                     b['known_finding'] = hit['id']
                 else:
                     violations.append({'name': b['name'], 'verdict': 'refuted', 'backend': 'bounded-rc',
@@ -190,6 +192,7 @@ class Report:
             lines.append(f"CHECKER-ERROR property={self.prop} {self.crash}")
             if exit_code == EXIT_OK:
                 exit_code = EXIT_CRASH
+        self._known_bounded = known_bounded
         self._write_evidence(verdicts, violations, known_hits, unknown)
         bfail = [b for b in self.bounded if not b['ok']]
         if refuted or unknown or bfail:
@@ -260,7 +263,8 @@ class Report:
                             'detail': str(o.get('detail'))[:300], 'known_finding': o.get('known_finding')})
         for b in self.bounded[:3]:
             samples.append({'bounded_case': b['name'], 'ok': b['ok'], 'detail': str(b['detail'])[:200]})
-        n_known = sum(n for _f, n in known_hits.values())
+        kb = getattr(self, '_known_bounded', {})
+        n_known = sum(n - kb.get(hid, 0) for hid, (_f, n) in known_hits.items())  # refuted *obligations* listed as known findings
         n_claimed = n_ob - n_known  # obligations of the claim: everything generated minus the listed known findings
         all_discharged = proved == n_claimed and n_claimed > 0
         level = self.level
@@ -280,6 +284,7 @@ class Report:
             'inlined_helpers': self.inlined,
             'shape_bounded': self.shape_bounded,
             'bounded': {'cases': len(self.bounded), 'passed': sum(1 for b in self.bounded if b['ok']),
+                        'failed_known_findings': sum(kb.values()),
                         'note': 'bounded stand-in (run-time contracts on real code); never counted as proved'},
             'evaluations': n_ob + len(self.bounded),
             'distinct_nontrivial': len(keys) + len(set(b['name'] for b in self.bounded)),
